@@ -232,28 +232,28 @@ func covClaimCases(seed int64, idBase int, st *worldStats, labels map[int]string
 				var top []ProofRef
 				switch v {
 				case "inline":
-					top = []ProofRef{{"inv", true}}
+					top = []ProofRef{{Tok: "inv", Inline: true}}
 				case "link-resolvable":
 					w.Ctx.Resolvable["inv"] = true
-					top = []ProofRef{{"inv", false}}
+					top = []ProofRef{{Tok: "inv", Inline: false}}
 				case "link-unresolvable":
-					top = []ProofRef{{"inv", false}}
+					top = []ProofRef{{Tok: "inv", Inline: false}}
 				case "unresolvable-around-inline":
-					top = []ProofRef{{"junk1", false}, {"inv", true}, {"junk2", false}}
+					top = []ProofRef{{Tok: "junk1", Inline: false}, {Tok: "inv", Inline: true}, {Tok: "junk2", Inline: false}}
 				case "two-unresolvable":
-					top = []ProofRef{{"junk2", false}, {"junk1", false}}
+					top = []ProofRef{{Tok: "junk2", Inline: false}, {Tok: "junk1", Inline: false}}
 				case "holder-delegation":
 					// the last delegation of the chain claimed directly (its holder has not invoked anything yet)
-					top = []ProofRef{{"junk1", false}, {specs[len(specs)-2].Name, true}}
+					top = []ProofRef{{Tok: "junk1", Inline: false}, {Tok: specs[len(specs)-2].Name, Inline: true}}
 				case "forged-inline+unresolvable":
 					inv.SignedBy = cast.Ed("mallory")
-					top = []ProofRef{{"inv", true}, {"junk1", false}}
+					top = []ProofRef{{Tok: "inv", Inline: true}, {Tok: "junk1", Inline: false}}
 				case "resolvable+unresolvable+inline-duplicate":
 					w.Ctx.Resolvable["inv"] = true
-					top = []ProofRef{{"junk1", false}, {"inv", false}, {"inv", true}}
+					top = []ProofRef{{Tok: "junk1", Inline: false}, {Tok: "inv", Inline: false}, {Tok: "inv", Inline: true}}
 				case "stranger-inline+link-resolvable":
 					w.Ctx.Resolvable["inv"] = true
-					top = []ProofRef{{"stranger", true}, {"junk2", false}, {"inv", false}}
+					top = []ProofRef{{Tok: "stranger", Inline: true}, {Tok: "junk2", Inline: false}, {Tok: "inv", Inline: false}}
 				}
 				w.Specs = specs
 				if err := w.Build(); err != nil {
